@@ -4215,14 +4215,14 @@ func complexConst(n *node) {
 
 func imagConst(n *node) {
 	if v := n.child[1].rval; v.IsValid() {
-		n.rval = reflect.ValueOf(imag(v.Complex()))
+		n.rval = reflect.ValueOf(imag(vComplex(v)))
 		n.gen = nop
 	}
 }
 
 func realConst(n *node) {
 	if v := n.child[1].rval; v.IsValid() {
-		n.rval = reflect.ValueOf(real(v.Complex()))
+		n.rval = reflect.ValueOf(real(vComplex(v)))
 		n.gen = nop
 	}
 }
